@@ -37,8 +37,8 @@ static bool bits_equal(double a, double b)
   return std::memcmp(&a, &b, sizeof(double)) == 0;
 }
 
-template<class Builder, class Params>
-static void vsem_case(Toks& tk, Out& out, Params params)
+template<class Builder, class Params, class OtherKindBuilder, class OtherKindParams>
+static void vsem_case(Toks& tk, Out& out, Params params, OtherKindParams other_kind_params)
 {
   using namespace micm;
   auto a = Species("A");
@@ -70,11 +70,21 @@ static void vsem_case(Toks& tk, Out& out, Params params)
       ps.h_start_ = 0.25;
     return ps;
   };
-  std::optional<decltype(make_solver())> solver_box;
-  solver_box.emplace(make_solver());
-  auto& solver = *solver_box;                    // re-created in place by op 7 (same storage)
+  using SolverT0 = decltype(make_solver());
+  // the solver in use lives on the heap and is replaced by op 7 through moves into a NEW object (another address:
+  // nothing may identify a solver by where it lives); `solver` below always names the current one
+  std::unique_ptr<SolverT0> solver_holder = std::make_unique<SolverT0>(make_solver());
+  std::vector<std::unique_ptr<SolverT0>> retired;   // moved-from objects stay alive so that addresses are not reused
+#define solver (*solver_holder)
   auto ref_solver = make_solver();               // never moved
   auto solver2 = make_solver_with(params, ncells + 1);
+  // a solver of the other integrator for the same mechanism, layout and cell count: its States have the same C++ type
+  // but carry the other integrator's scratch object
+  auto other_kind_solver = OtherKindBuilder(other_kind_params)
+                               .SetSystem(System(SystemParameters{ .gas_phase_ = gas }))
+                               .SetReactions({ r1, r2 })
+                               .SetNumberOfGridCells((int)ncells)
+                               .Build();
   using SolverT = std::remove_reference_t<decltype(solver)>;
   using StateT = decltype(solver.GetState());
   std::vector<std::optional<StateT>> st(4);
@@ -106,7 +116,16 @@ static void vsem_case(Toks& tk, Out& out, Params params)
       case 0:
       {
         int i = (int)tk.i();
-        st[i].emplace(solver.GetState());
+        if (k % 2 == 0)
+          st[i].emplace(solver.GetState());
+        else
+        {
+          // the same value by another road: a State of the other integrator, then copy assignment of the solver's own
+          // State onto it (nothing of the target's scratch may survive, whatever its dynamic type)
+          st[i].emplace(other_kind_solver.GetState());
+          const StateT own = solver.GetState();
+          *st[i] = own;   // copy assignment (an lvalue source)
+        }
         load(*st[i], i);
         live[i] = true;
         shape[i] = 0;
@@ -238,7 +257,8 @@ static void vsem_case(Toks& tk, Out& out, Params params)
         SolverT moved(std::move(solver));
         SolverT other = make_solver_with(other_params(), ncells + 2);  // other integrator parameters and another cell count
         other = std::move(moved);                 // move assignment onto it: nothing of its own may remain
-        solver_box.emplace(std::move(other));     // move construction
+        retired.push_back(std::move(solver_holder));
+        solver_holder = std::make_unique<SolverT0>(std::move(other));   // move construction, at another address
         out.tok("M");
         break;
       }
@@ -246,6 +266,8 @@ static void vsem_case(Toks& tk, Out& out, Params params)
     }
   }
 }
+
+#undef solver
 
 static void fam_vsem(Toks& tk, Out& out)
 {
@@ -255,16 +277,22 @@ static void fam_vsem(Toks& tk, Out& out)
   using CSR = SparseMatrixStandardOrderingCompressedSparseRow;
   using V3 = VectorMatrix<double, 3>;
   using SV3 = SparseMatrix<double, SparseMatrixVectorOrderingCompressedSparseRow<3>>;
+  using RB = CpuSolverBuilder<RosenbrockSolverParameters, Matrix<double>, SparseMatrix<double, CSR>>;
+  using RBV = CpuSolverBuilderInPlace<RosenbrockSolverParameters, V3, SV3>;
+  using BB = CpuSolverBuilder<BackwardEulerSolverParameters, Matrix<double>, SparseMatrix<double, CSR>>;
+  using BBV = CpuSolverBuilderInPlace<BackwardEulerSolverParameters, V3, SV3>;
   if (kind == 0 && L == 0)
-    vsem_case<CpuSolverBuilder<RosenbrockSolverParameters, Matrix<double>, SparseMatrix<double, CSR>>>(
-        tk, out, RosenbrockSolverParameters::ThreeStageRosenbrockParameters());
+    vsem_case<RB, RosenbrockSolverParameters, BB, BackwardEulerSolverParameters>(
+        tk, out, RosenbrockSolverParameters::ThreeStageRosenbrockParameters(), BackwardEulerSolverParameters{});
   else if (kind == 0)
-    vsem_case<CpuSolverBuilderInPlace<RosenbrockSolverParameters, V3, SV3>>(tk, out, RosenbrockSolverParameters::FourStageRosenbrockParameters());
+    vsem_case<RBV, RosenbrockSolverParameters, BBV, BackwardEulerSolverParameters>(
+        tk, out, RosenbrockSolverParameters::FourStageRosenbrockParameters(), BackwardEulerSolverParameters{});
   else if (L == 0)
-    vsem_case<CpuSolverBuilder<BackwardEulerSolverParameters, Matrix<double>, SparseMatrix<double, CSR>>>(
-        tk, out, BackwardEulerSolverParameters{});
+    vsem_case<BB, BackwardEulerSolverParameters, RB, RosenbrockSolverParameters>(
+        tk, out, BackwardEulerSolverParameters{}, RosenbrockSolverParameters::ThreeStageRosenbrockParameters());
   else
-    vsem_case<CpuSolverBuilderInPlace<BackwardEulerSolverParameters, V3, SV3>>(tk, out, BackwardEulerSolverParameters{});
+    vsem_case<BBV, BackwardEulerSolverParameters, RBV, RosenbrockSolverParameters>(
+        tk, out, BackwardEulerSolverParameters{}, RosenbrockSolverParameters::FourStageRosenbrockParameters());
 }
 
 int main()
